@@ -5,7 +5,8 @@ from __future__ import annotations
 
 import sympy as sp
 
-from .opaque import linear, homogeneous, F
+from . import units as U
+from .opaque import linear, homogeneous, F, scalar_part
 from .report import AnalysisError
 from .sym import (LIB, Tup, DictV, SliceV, RangeV, BoundLib, LibV, as_sym, is_sym, Obj, _const_int, ArrV)
 
@@ -295,10 +296,30 @@ def lib_ius(ev, a, k, n, mod):
     return SplineV(as_sym(a[0]), as_sym(a[1]))
 
 
+def grad(expr):
+    """numpy.gradient(y) along the grid.  Of a uniformly spaced grid c * linspace(lo, hi, n) it is the spacing c (hi - lo)/(n - 1) at
+    every point, ends included (central and one-sided differences of a linear sequence coincide)"""
+    g = linear("GRAD", [sp.sympify(expr)], 0)
+    GRADF, LIN = F("GRAD"), F("LINSPACE")
+    return g.replace(lambda e: e.func == GRADF and len(e.args) == 1 and e.args[0].func == LIN,
+                     lambda e: (e.args[0].args[1] - e.args[0].args[0]) / (e.args[0].args[2] - 1))
+
+
 def lib_gradient(ev, a, k, n, mod):
-    if len(a) != 1:
-        raise ev.err("numpy.gradient with spacing arguments", n, mod)
-    return linear("GRAD", [as_sym(a[0])], 0)
+    if len(a) == 1:
+        return grad(as_sym(a[0]))
+    if len(a) != 2:
+        raise ev.err("numpy.gradient with more than one spacing argument", n, mod)
+    y, h = as_sym(a[0]), sp.sympify(as_sym(a[1]))
+    # one further argument: a scalar spacing h (gradient(y)/h), or the coordinates of the points (for a uniform grid: gradient(y)/spacing)
+    c, r = scalar_part(h)
+    if r.func == F("LINSPACE"):
+        return grad(y) / grad(h)
+    reduced = h.replace(lambda e: e.func in (F("MIN"), F("MAX")), lambda e: sp.Dummy("red", positive=True))
+    scalars = getattr(ev, "grid_scalars", set())
+    if not reduced.atoms(sp.Function) and all(isinstance(s_, sp.Dummy) or s_ in scalars or s_ in U.UNIT_SYMBOLS for s_ in reduced.free_symbols):
+        return grad(y) / h
+    raise ev.err("numpy.gradient with spacing arguments that are neither a scalar of the options nor a uniform grid", n, mod)
 
 
 def lib_identity(ev, a, k, n, mod):
